@@ -19,12 +19,14 @@ func init() {
 			"H264 frames A: 12 shapes of up to 10 packets mixing single NAL units, STAP-A and FU-A trains (reference encoder); frames B: the damaged frame A itself sent again byte for byte / single / STAP-A / FU-A train / FU-A train + single / FU-A trains whose start, middle or end fragment carries no payload octets, and a single FU-A packet with both S and E set (also among the A shapes); Annex-B and AVC output",
 			"AV1 frames A: 8 OBU sequences packetized by AV1Payloader at small MTUs into up to 10 packets with Z/Y chains, plus a fragmented tile list and a fragmented temporal delimiter from another packetizer; frames B start with Z=0, with and without N=1, among them the damaged frame sent again and hand-built frames whose first packet opens with an empty OBU element or ends in an empty first fragment",
 			"large abandoned fragments: a fragmented unit / OBU of 70 KB, 1 MiB + 1 KB and 3 MB whose end (or start, or one middle fragment) is lost, at MTU 1200, followed by each frame-B shape; for H264 also abandoned units that leave 2^16..2^22 minus {0,1,600,1197,1199} bytes buffered, followed by a frame B with full-size fragments",
+			"H264 garbage heads: one or two garbage strings whose first two octets take all 65536 values (the second string: a fixed orphan middle fragment), with 0, 1 or 3 further octets, before intact frames of shapes 3, s, a2 and 2s, AVC off and on",
 			"ALL loss subsets of A (2^n, n <= 10) delivered in order; thorough: a second damaged frame (H264 shapes 3, s2, E; the first three packets of three AV1 shapes) behind the first, the loss subsets running over both (n <= 13), and garbage prefixes also for frames of up to 8 packets; garbage: every sequence of up to 2 strings before frame A and 0-1 string between the delivered part of A and frame B, from an 8 (H264) / 12 (AV1) string corpus (nil, empty, orphan fragments, truncated aggregation, start of a never-finished fragment)",
 		},
 		Scenarios: []mc.Scenario{
 			{Name: "h264-loss-then-intact-frame", Tiers: "qt", ShardDepth: 4, Run: c15H264},
 			{Name: "av1-loss-then-intact-frame", Tiers: "qt", ShardDepth: 4, Run: c15AV1},
 			{Name: "large-abandoned-fragments", Tiers: "qt", ShardDepth: 2, Run: c15Large},
+			{Name: "h264-every-garbage-head-then-intact-frame", Tiers: "qt", ShardDepth: 2, Run: c15H264Heads},
 		},
 	})
 }
@@ -335,4 +337,32 @@ func c15Large(c *mc.Ctx) {
 	}
 	c.NonTrivial()
 	c.Outcome(fmt.Sprintf("av1=%v size=%d", av1, size))
+}
+
+// c15H264Heads: the history is a string whose first two octets (NAL header and FU header /
+// first length octet) take every value - whatever the type, the indicator bits or the S/E/R
+// bits of the garbage are - optionally followed by an orphan middle fragment; the intact frame
+// behind it must decode as on a fresh depacketizer.
+func c15H264Heads(c *mc.Ctx) {
+	b0 := c.Pick(256)
+	tail := mc.From(c, [][]byte{{}, {0xDE}, {0xDE, 0xAD, 0xBE}})
+	second := c.Bool()
+	b := mc.From(c, []string{"3", "s", "a2", "2s"})
+	avc := c.Bool()
+	frameB := c15H264Frame(b, 2)
+	mk := func() rtp.Depacketizer { return &codecs.H264Packet{IsAVC: avc} }
+	for b1 := 0; b1 < 256; b1++ {
+		g := append([]byte{byte(b0), byte(b1)}, tail...)
+		garbage := [][]byte{g}
+		if second {
+			garbage = append(garbage, []byte{0x7C, 0x05, 0xBB})
+		}
+		desc := func() string {
+			return fmt.Sprintf("H264 AVC=%v garbage %s, then frame B shape %q", avc, hxs(garbage), b)
+		}
+		c15Run(c, mk, garbage, nil, 0, nil, frameB, desc)
+	}
+	c.Cases(255)
+	c.NonTrivial()
+	c.Outcome(fmt.Sprintf("head B=%s second=%v", b, second))
 }
